@@ -162,10 +162,19 @@ func (w *Walker) Walk(
 		)
 		w.cancelAll()
 
+		// Node routines whose callbacks are still running may complete after we return:
+		// hand out a snapshot instead of the map they keep writing to
+		w.doneMutex.Lock()
+		defer w.doneMutex.Unlock()
+		completions := make(CompletionMap, len(w.completions))
+		for nodeLabel, completion := range w.completions {
+			completions[nodeLabel] = completion
+		}
+
 		if w.failFastTriggered {
-			return w.completions, nil
+			return completions, nil
 		} else {
-			return w.completions, ctx.Err()
+			return completions, ctx.Err()
 		}
 	}
 }
